@@ -3,11 +3,12 @@ from ..qc import expect_raise, result_vec, run_case
 from ..cells import flags_of
 from .. import expr as X
 from ..specs import pressure_expected
-from .common import run_tables
+from .common import run_carrier_sweep, run_tables
 
 
 def run(ck):
     run_tables(ck, 'C13.density', cases.density)
+    run_carrier_sweep(ck, 'C13.density', cases.density, time=False)
     for case, _ in cases.pressure(ck.tier):
         out = run_case(ck, case)
         if not expect_raise(ck, 'C13.pressure.total', case, out, None, ''):
